@@ -47,7 +47,16 @@ class ModelBackend(CryptoBackend):
         raise SignatureError(why)
 
     def decrypt(self, enctext, key_file, id_attr):
-        return ""
+        # kind 7: the ciphertext token opens to an attacker-made, unsigned assertion
+        if "RVZJTENJUEhFUg==" not in enctext:
+            return ""
+        with untraced():
+            root = ET.fromstring(enctext)
+            for ea in root.iter(q(SAML, "EncryptedAssertion")):
+                for ch in list(ea):
+                    ea.remove(ch)
+                ea.append(copy.deepcopy(EVIL_A))
+            return ET.tostring(root, encoding="unicode")
 
 
 FX = SPFixture()
@@ -154,6 +163,15 @@ def attack(mode, kind, evil_id, evil_sig, loc, strip):
         _find(A, q(SAML, "NameID"))[0].text = EVIL_NID
     elif kind == 2:
         _find(A, q(SAML, "AttributeValue"))[0].text = EVIL_VAL
+    elif kind == 7:
+        # the (signed) assertion is replaced by an EncryptedAssertion whose plaintext is an unsigned evil assertion
+        idx = list(root).index(A)
+        root.remove(A)
+        ea = ET.Element(q(SAML, "EncryptedAssertion"))
+        ed = ET.SubElement(ea, "{http://www.w3.org/2001/04/xmlenc#}EncryptedData", {"Type": "http://www.w3.org/2001/04/xmlenc#Element"})
+        cd = ET.SubElement(ed, "{http://www.w3.org/2001/04/xmlenc#}CipherData")
+        ET.SubElement(cd, "{http://www.w3.org/2001/04/xmlenc#}CipherValue").text = "RVZJTENJUEhFUg=="
+        root.insert(idx, ea)
     elif kind == 6:
         _find(A, q(SAML, "SubjectConfirmationData"))[0].set("Recipient", F.ACS_POST)
         _find(A, q(SAML, "NameID"))[0].set("SPProvidedID", "injected")
@@ -228,7 +246,7 @@ def attack(mode, kind, evil_id, evil_sig, loc, strip):
     return ET.tostring(root, encoding="unicode")
 
 
-KINDS = 7
+KINDS = 8
 OPTS = [(True, False, False), (False, True, False), (False, False, True), (True, True, False)]   # (want_response, want_assertions, want_either)
 
 
@@ -306,17 +324,18 @@ _PRE = ["0 <= mode <= 2", "0 <= kind < %d" % KINDS, "0 <= evil_id <= 1", "0 <= e
 CONDITIONS = [
     Cond(name="wrap", fn="wrap", params=_P, pre=_PRE,
          partitions={"quick": [{"mode": m, "kind": k, "evil_id": 0, "evil_sig": 0, "loc": 0, "strip": False} for m in range(3) for k in (0, 1, 2, 5, 6)] +
+                              [{"mode": m, "kind": 7, "evil_id": 0, "evil_sig": 0, "loc": 0, "strip": False} for m in (0, 1)] +
                               [{"mode": 0, "kind": 3, "evil_sig": s, "loc": l, "opt": 1} for (s, l) in ((1, 3), (1, 4), (1, 5), (3, 5), (4, 2))] +
                               [{"mode": 2, "kind": 3, "evil_sig": 1, "loc": 5, "opt": 3}] +
                               [{"mode": 1, "kind": 4, "evil_sig": s, "loc": l, "opt": 0} for (s, l) in ((1, 2), (1, 3), (3, 5))],
-                     "thorough": [{"mode": m, "kind": k, "evil_id": 0, "evil_sig": 0, "loc": 0, "strip": False} for m in range(3) for k in (0, 1, 2, 5, 6)] +
+                     "thorough": [{"mode": m, "kind": k, "evil_id": 0, "evil_sig": 0, "loc": 0, "strip": False} for m in range(3) for k in (0, 1, 2, 5, 6, 7)] +
                                  [{"mode": m, "kind": k, "evil_sig": s, "loc": l} for m in range(3) for k in (3, 4) for s in range(5) for l in range(7)]},
          timeout={"quick": 900, "thorough": 2400}, path_timeout=120,
          functions=["client_base.Base.parse_authn_request_response", "entity.Entity._parse_response", "response.AuthnResponse.loads/verify/parse_assertion/_assertion",
                     "sigver.SecurityContext.correctly_signed_response/_check_signature/check_signature/verify_signature",
                     "SamlBase.harvest_element_tree/_convert_element_tree_to_member (really parsing every attack document)"],
          bounds="documents derived from a genuinely signed response (assertion-, response- or both-signed) by: in-place edits of NameID / attribute value / XML attributes; "
-                "moving the assertion's Signature onto the Response; an evil Assertion (fresh or duplicate ID; Signature children: none, copy of the genuine one, forged, both in either order) "
+                "moving the assertion's Signature onto the Response; replacing the assertion by an EncryptedAssertion that decrypts to an unsigned evil one; an evil Assertion (fresh or duplicate ID; Signature children: none, copy of the genuine one, forged, both in either order) "
                 "with the original relocated (dropped, following / preceding sibling, evil element's Advice, ds:Object of the copied Signature, Response Extensions, first child of the root; "
                 "keeping or stripped of its own Signature); the same with an evil Response wrapping the original Response; x 4 signature-requiring SP option settings. "
                 "quick: sampled signature-children / location combinations"),
